@@ -28,8 +28,11 @@
 #include "StringDictionary.h"
 
 StringDictionary *StringDictionary::load(std::istream &fp, uint opt) {
+  // The type tag is peeked and the stream goes back to where the image starts
+  // (which need not be the beginning of the stream)
+  std::streampos start = fp.tellg();
   size_t r = loadValue<uint32_t>(fp);
-  fp.seekg(0, fp.beg);
+  fp.seekg(start);
 
   switch (r) {
   case HASHHF:
